@@ -276,14 +276,9 @@ func propC10(w *World, r *Report) {
 	checkCleanupOnlyAtStartup(w, r, "D4")
 	argT := newTermEnv(w).termOf(cleanupCall.Call.Args[0]).String()
 	r.Check(strings.HasPrefix(argT, "main.Config.OutputDir@"), "D4", "the clean-up runs on the configured output directory", w.InstrPos(cleanupCall), argT)
-	okErr := false
-	if iff, ok := cleanupCall.Block().Instrs[len(cleanupCall.Block().Instrs)-1].(*ssa.If); ok {
-		if strings.Contains(newTermEnv(w).termOf(iff.Cond).String(), cleanup.Name()+"(") {
-			if _, isRet := iff.Block().Succs[0].Instrs[len(iff.Block().Succs[0].Instrs)-1].(*ssa.Return); isRet {
-				okErr = true
-			}
-		}
-	}
+	// the error is tested right after the call and, when it is NOT nil, returned (polarity matters: the reverse test
+	// would abort every healthy start-up and serve after a failed clean-up)
+	okErr := callErrorReturned(cleanupCall)
 	if okErr {
 		// when the call sits in a stage function, that function's error must abort its caller as well
 		stage := cleanupCall.Parent()
